@@ -70,7 +70,12 @@ fn run_burst(case: &Case) -> Verdict {
     let tw = TempWs::new();
     tw.write("inc.td", "class Base { int b = 0; }\n");
     tw.write("root.td", &doc_text(classes, 0));
-    let uris = [tw.uri("root.td"), tw.uri("inc.td")];
+    tw.write("other.td", "class Other;\n");
+    let uris = [tw.uri("root.td"), tw.uri("inc.td"), tw.uri("other.td")];
+    // "faulty": documents carry diagnostics (semantic and syntactic), so that files with published
+    // problems leave the workspace when another document becomes the root
+    let faulty = case["faulty"].as_bool() == Some(true);
+    let fault = |v: i64| if faulty && v % 3 != 1 { "def broken : NoSuchClass;\ndef = ;\n" } else { "" };
     let mut c = Client::start(2);
     if !c.initialize() {
         c.shutdown();
@@ -78,15 +83,21 @@ fn run_burst(case: &Case) -> Verdict {
     }
     let mut version = 1;
     let mut outstanding: Vec<(i64, String)> = Vec::new();
-    let mut opened = [false, false];
+    let mut opened = [false, false, false];
     let mut concurrent = false;
     for op in ops {
         let kind = op[0].as_str().unwrap_or("");
-        let d = (op[1].as_u64().unwrap_or(0) % 2) as usize;
+        let d = (op[1].as_u64().unwrap_or(0) % 3) as usize;
         match kind {
             "open" | "change" => {
                 version += 1;
-                let text = if d == 0 { doc_text(classes, version as u64 % 3) } else { format!("class Base {{ int b = {version}; }}\n") };
+                let text = match d {
+                    // now and then the root drops its include (the included file leaves the workspace)
+                    0 if faulty && version % 4 == 0 => format!("class Base;\n{}{}", doc_text(classes, version as u64 % 3).replacen("include \"inc.td\"\n", "", 1), fault(version)),
+                    0 => format!("{}{}", doc_text(classes, version as u64 % 3), fault(version)),
+                    1 => format!("class Base {{ int b = {version}; }}\n{}", fault(version)),
+                    _ => format!("class Other {{ int o = {version}; }}\n{}", fault(version)),
+                };
                 if kind == "open" || !opened[d] {
                     c.did_open(&uris[d], &text);
                     opened[d] = true;
@@ -114,8 +125,8 @@ fn run_burst(case: &Case) -> Verdict {
         }
     }
     // barrier: a last request; the main loop handles messages in order
-    if opened[0] || opened[1] {
-        let target = if opened[0] { 0 } else { 1 };
+    if opened.iter().any(|o| *o) {
+        let target = opened.iter().position(|o| *o).unwrap_or(0);
         let (m, p) = request_params("foldingRange", &uris[target]);
         let id = c.send_request(&m, p);
         outstanding.push((id, format!("{m} (barrier)")));
@@ -346,21 +357,21 @@ fn gen_burst(rng: &mut Rng) -> Case {
     let mut ops: Vec<Value> = vec![json!(["open", 0])];
     for _ in 0..n {
         match rng.below(10) {
-            0..=3 => ops.push(json!(["change", rng.below(2)])),
-            4 => ops.push(json!(["open", 1])),
-            5..=6 => ops.push(json!(["req", rng.below(2), REQUESTS[rng.below(REQUESTS.len())]])),
+            0..=3 => ops.push(json!(["change", rng.below(3)])),
+            4 => ops.push(json!(["open", 1 + rng.below(2)])),
+            5..=6 => ops.push(json!(["req", rng.below(3), REQUESTS[rng.below(REQUESTS.len())]])),
             7 => {
                 if rng.chance(1, 2) {
-                    ops.push(json!(["close", rng.below(2)]));
+                    ops.push(json!(["close", rng.below(3)]));
                 } else {
-                    ops.push(json!(["req", rng.below(2), REQUESTS[rng.below(REQUESTS.len())]]));
+                    ops.push(json!(["req", rng.below(3), REQUESTS[rng.below(REQUESTS.len())]]));
                 }
             }
             _ => ops.push(json!(["pause", rng.below(3000)])),
         }
     }
     let classes = [1, 3, 30, 300][rng.below(4)];
-    json!({"kind": "burst", "classes": classes, "ops": ops})
+    json!({"kind": "burst", "classes": classes, "faulty": rng.chance(1, 2), "ops": ops})
 }
 
 impl Property for C08 {
@@ -368,7 +379,7 @@ impl Property for C08 {
         "C08"
     }
     fn rule(&self) -> String {
-        "the real Server (router + lifecycle + concurrency layers) in-process over an in-memory pipe. Controlled part: per scenario - handler under test in {change root, change included document, open included document, re-send identical text, close root} against the still-parked diagnostics task of the previous notification and {no request | one of the 8 request kinds | thorough: every pair of request kinds} - every interleaving of the schedule points (verif hooks) with at most 1 preemption (thorough: 3) is enumerated by stateless DFS; a released thread that does not reach its next point is classified running/blocked from /proc; deadlock = no actor can be released while some are blocked. Uncontrolled part: bursts of 3..9 operations (didOpen/didChange of root and included document back to back, each of the 8 request kinds, sub-3ms pauses) on documents of 1..300 classes, all 8x2 change-then-request pairs enumerated; every request and a final barrier request must be answered; a missing answer is a deadlock only with evidence (all server threads asleep with unchanged context-switch counters over 4 samples), else inconclusive. distinct = digest of the schedule / operation list; non-trivial = a step at which the handler and a task could both be released (controlled), >=2 document notifications in flight with >=1 request (bursts)".into()
+        "the real Server (router + lifecycle + concurrency layers) in-process over an in-memory pipe. Controlled part: per scenario - handler under test in {change root, change included document, open included document, re-send identical text, close root} against the still-parked diagnostics task of the previous notification and {no request | one of the 8 request kinds | thorough: every pair of request kinds} - every interleaving of the schedule points (verif hooks) with at most 1 preemption (thorough: 3) is enumerated by stateless DFS; a released thread that does not reach its next point is classified running/blocked from /proc; deadlock = no actor can be released while some are blocked. Uncontrolled part: bursts of 3..9 operations (didOpen/didChange/didClose of a root, its included document and a third independent document back to back, each of the 8 request kinds, sub-3ms pauses) on documents of 1..300 classes, half of them with documents that carry diagnostics and a root that sometimes drops its include (files with published problems leave the workspace); all 8x2 change-then-request pairs and 8x5x2 workspace-switch sequences enumerated; every request and a final barrier request must be answered; a missing answer is a deadlock only with evidence (all server threads asleep with unchanged context-switch counters over 4 samples), else inconclusive. distinct = digest of the schedule / operation list; non-trivial = a step at which the handler and a task could both be released (controlled), >=2 document notifications in flight with >=1 request (bursts)".into()
     }
     fn assumptions(&self) -> Vec<String> {
         vec!["OS scheduling decides the interleaving in the uncontrolled part; liveness is checked as 'answers within the patience window', blocked-thread evidence from /proc/self/task".into()]
@@ -426,6 +437,21 @@ impl Property for C08 {
                     }
                 })
             },
+            // documents with diagnostics, a third independent document: files with published problems
+            // leave the workspace (other root, include dropped), then further edits and a request
+            Family::new("workspace-switch-bursts", 1, |_c, _r, emit| {
+                for classes in [1, 40] {
+                    for r in REQUESTS {
+                        for (a, b) in [(0, 2), (1, 2), (2, 0), (0, 1), (0, 0)] {
+                            let ops = json!([["open", a], ["open", b], ["change", b], ["req", b, r], ["change", a], ["change", a], ["req", a, r]]);
+                            if !emit(json!({"kind": "burst", "classes": classes, "faulty": true, "ops": ops})) {
+                                return;
+                            }
+                        }
+                    }
+                }
+            })
+            .exhaustive(),
             Family::new("burst-random", ctx.tier.pick(16, 200), |_c, rng, emit| {
                 for _ in 0..10 {
                     if !emit(gen_burst(rng)) {
